@@ -112,9 +112,24 @@ def apply_contract(ctx, cs, fn, args, kwargs):
                 return ctx.instantiate(target, args, kwargs)
             return ctx.invoke_repo_function(fn, args, kwargs)
         c = sel[0]
+    # ghost WITNESSES named by the contract under proof (`call_ghosts = {callee qualname: (contract name,
+    # spec fn -> {ghost: value})}`): the callee's contract is "for all ghosts: requires => ensures", so the
+    # caller may pick the instance it needs -- requires is PROVED for it, ensures assumed for it
+    witness = None
+    cc = ctx.cur_contract
+    if cc is not None and cc.call_ghosts and getattr(fn, "__qualname__", None) in cc.call_ghosts:
+        cname, wfn = cc.call_ghosts[fn.__qualname__]
+        named = [x for x in cs if x.name == cname]
+        if named:
+            c = named[0]
+            witness = ctx.call_spec(wfn, dict(ctx.entry_ns, **ns))
     caller = ctx.proof_label
     ctx.used_contracts.add(c.label)
     ghosts = [p for p in c.args if p.startswith("_")]
+    if witness is not None:
+        for g in ghosts:
+            ns[g] = witness[g]
+        ghosts = []
     if c.requires is not None:
         nsr = dict(ns)
         for g in ghosts:      # universally quantified: the caller proves requires for a fresh value
@@ -151,6 +166,7 @@ def _apply_contract_tail(ctx, c, fn, target, ns, ghosts):
         if c.proof == "table":
             ctx.summary_returns.append((c.label, None, exc_cls))
         exc = SExc(exc_cls, (ctx.fresh_str("msg"),))
+        exc.extra.setdefault("via", set()).add(getattr(fn, "__qualname__", c.short))
         if c.exceptional is not None:
             ns2 = dict(ns, exc=exc, old=old)
             ctx.assume(ctx.as_goal(ctx.call_spec(c.exceptional, ns2)))
